@@ -40,6 +40,12 @@ def instances(tier, seed):
             continue
         out.append(dict(op="holstein", nmol=nmol, nph=nph, scheme=scheme, periodic=periodic,
                         label="holstein nmol=%d nph=%d scheme=%d periodic=%s" % (nmol, nph, scheme, periodic), key="holstein"))
+    # an explicit, NON-symmetric coupling matrix (every pair coupled): J_ij a+_i a_j, not J_ji
+    for nmol, scheme in itertools.product((2, 3), (1, 2, 3, 4)):
+        if nmol == 2 and scheme in (2, 3) and tier == "quick":
+            continue
+        out.append(dict(op="holstein", nmol=nmol, nph=1, scheme=scheme, periodic=False, jmat=True,
+                        label="holstein nmol=%d scheme=%d explicit non-symmetric coupling matrix" % (nmol, scheme), key="holstein/jmatrix"))
     for nph in (1, 2):
         out.append(dict(op="sbm", nph=nph, label="spin-boson nph=%d" % nph, key="sbm"))
     for ncell, rng in itertools.product((2, 3, 4), (1, 2, 3)):
@@ -374,6 +380,15 @@ def h_holstein(ctx, P):
         pars.append((e, pp))
         ctx.assume(ctx.nonzero(e + sum((0.5 * w1 ** 2) * d * d for (w0, w1, d) in pp)), "on-site energy != 0")
     jq = Quantity(J) if not ctx.symbolic else QSym(J)
+    Jm = None
+    if P.get("jmat"):
+        Jm = np.zeros((nmol, nmol), dtype=object if ctx.symbolic else float)
+        for i in range(nmol):
+            for j in range(nmol):
+                if i != j:
+                    Jm[i, j] = ctx.real("J%d%d" % (i, j), 0.31 + 0.2 * i - 0.13 * j)
+                    ctx.assume(ctx.nonzero(Jm[i, j]), "J_ij != 0")
+        jq = Jm
     model = HolsteinModel(mols, jq, scheme=P["scheme"], periodic=P["periodic"])
     H = dense_of_terms(ctx, model, model.ham_terms)
     # documentation formula, assembled on an explicit basis: electronic occupation index x phonon levels
@@ -396,7 +411,10 @@ def h_holstein(ctx, P):
         ref = ref + embed(n_e, site_of[i]) * (pars[i][0] + sum((0.5 * w1 ** 2) * d * d for (w0, w1, d) in pars[i][1]))
         for j in range(nmol):
             hop = (abs(i - j) == 1) or (P["periodic"] and abs(i - j) == nmol - 1 and nmol > 2)
-            if i != j and hop:
+            if Jm is not None:
+                if i != j:
+                    ref = ref + embed(ad, site_of[i]).dot(embed(ad.T, site_of[j])) * Jm[i, j]      # J_ij a+_i a_j
+            elif i != j and hop:
                 ref = ref + embed(ad, site_of[i]).dot(embed(ad.T, site_of[j])) * J
         for k, (w0, w1, d) in enumerate(pars[i][1]):
             bas = ba.BasisSHO((i, k), w0, 2)
